@@ -321,6 +321,60 @@ def _b_setattr(interp, args, kw, st, node):
     return vconst(None)
 
 
+UNDEF = V("undef", T("undef"))
+
+
+def _b_delattr(interp, args, kw, st, node):
+    o, name = args[0], args[1]
+    if o.kind == "obj" and name.has_const:
+        st.heap[o.obj.id][name.const] = UNDEF
+        interp.event("delattr", node, st, attr=name.const, obj=o.obj)
+    return vconst(None)
+
+
+def _b_vars(interp, args, kw, st, node):
+    o = args[0]
+    if o.kind == "obj":
+        return V("objdict", T("vars", o.term), obj=o.obj, labels=o.labels, extra=o)
+    return V("unk", T("vars", o.term), labels=o.labels)
+
+
+def objdict_method(base, name):
+    """methods of vars(obj) / obj.__dict__: they read, write or delete the object's attributes"""
+    o = base.extra
+
+    def call(interp, args, kw, st, node):
+        if name in ("pop", "get") and args and args[0].has_const and isinstance(args[0].const, str):
+            dflt = args[1] if len(args) > 1 else vconst(None)
+            has = _b_hasattr(interp, [o, args[0]], {}, st, node)
+            t = interp.truth(has)
+            cur = interp.getattr_v(o, args[0].const, st, node) if t is not False else None
+            if name == "pop":
+                heap = st.heap[o.obj.id]
+                if t is True or t is False:
+                    if t is True:
+                        heap[args[0].const] = UNDEF
+                        interp.event("delattr", node, st, attr=args[0].const, obj=o.obj)
+                else:
+                    heap[args[0].const] = UNDEF
+                    interp.event("delattr", node, st, attr=args[0].const, obj=o.obj)
+            if t is True:
+                return cur
+            if t is False:
+                return dflt
+            return interp.phi(has.term, cur, dflt)
+        if name == "setdefault" and len(args) == 2 and args[0].has_const:
+            has = _b_hasattr(interp, [o, args[0]], {}, st, node)
+            if interp.truth(has) is False:
+                _b_setattr(interp, [o, args[0], args[1]], {}, st, node)
+                return args[1]
+            if interp.truth(has) is True:
+                return interp.getattr_v(o, args[0].const, st, node)
+        return V("unk", unk("objdict." + name), labels=base.labels)
+
+    return call
+
+
 def _b_callable(interp, args, kw, st, node):
     x = args[0]
     if x.kind in ("func", "cls", "scorer"):
@@ -524,7 +578,7 @@ def _b_slice(interp, args, kw, st, node):
 
 _BUILTINS = {
     "len": _b_len, "range": _b_range, "enumerate": _b_enumerate, "zip": _b_zip, "isinstance": _b_isinstance,
-    "hasattr": _b_hasattr, "getattr": _b_getattr, "setattr": _b_setattr, "callable": _b_callable,
+    "hasattr": _b_hasattr, "getattr": _b_getattr, "setattr": _b_setattr, "callable": _b_callable, "delattr": _b_delattr, "vars": _b_vars,
     "min": _minmax("min"), "max": _minmax("max"), "sum": _b_sum, "abs": _b_abs, "int": _b_int, "float": _b_float,
     "bool": _b_bool, "list": _b_list, "tuple": _b_tuple, "dict": _b_dict, "sorted": _b_sorted, "all": _b_all("all"),
     "any": _b_all("any"), "next": _b_next, "print": _b_print, "type": _b_type, "str": _b_str, "repr": _b_str,
